@@ -157,6 +157,7 @@
 //!   - Rearrange
 //!   - Generate geiger reports for each web server
 #![forbid(unsafe_code)]
+#![allow(unexpected_cfgs)]
 mod accept;
 mod ascii_string;
 mod body_async_reader;
@@ -178,6 +179,8 @@ mod response_body;
 mod time;
 mod token_set;
 mod util;
+#[cfg(servlin_verif)]
+pub mod verif_hooks;
 
 pub use crate::accept::{
     socket_addr_127_0_0_1, socket_addr_127_0_0_1_any_port, socket_addr_all_interfaces, PORT_env,
